@@ -23,7 +23,7 @@ ASSUMPTIONS = [
     "as part of the new session",
     "bounded liveness: the advertisement's LCSTART is offered within 3 cycles after the link came up",
 ]
-BOUNDS = "BMC from reset, enable/usb_reset free every cycle: quick K=32 everything free, K=36 PHY always ready; thorough K=40/44, " \
+BOUNDS = "BMC from reset, enable/usb_reset free every cycle: quick K=36 everything free, K=36 PHY always ready; thorough K=42/44, " \
          "2 headers K=46"
 OUTSIDE = "down/reset while a header is being received; traces longer than the bound; LAU/LPMA responses"
 
@@ -59,7 +59,7 @@ def queries(tier):
     f2 = lambda: HeaderRxHarness(n_packets=2, lead=9, spacing=2, free_enable=True)
     calm = {"retry_required": 0, "keepalive": 0, "lxu": 0}
     hint = {"*": dict(calm, src_ready=1)}
-    qs = [Query("bmc_1hp_free", f1, 32 if quick else 40, timeout=900, split=False, hints=hint,
+    qs = [Query("bmc_1hp_free", f1, 36 if quick else 42, timeout=900, split=False, hints=hint,
                 covers=["readv_after_disable", "readv_after_reset", "disable_mid_lgood", "disable_mid_lcrd"],
                 desc="1 symbolic header; enable, usb_reset, PHY ready, consumption, retry and LRTY/keepalive/LXU requests "
                      "free in every cycle (crash points everywhere); all assertions"),
